@@ -94,7 +94,7 @@ class Unmodelled(Exception):
 
 
 class Frame:
-    __slots__ = ('fid', 'body', 'block', 'stmt', 'dest', 'target', 'cont', 'loops', 'call_site')
+    __slots__ = ('fid', 'body', 'block', 'stmt', 'dest', 'target', 'cont', 'loops', 'call_site', 'self_ty')
 
     def __init__(self, fid, body, dest, target, cont=None, call_site=None):
         self.fid = fid
@@ -106,12 +106,14 @@ class Frame:
         self.cont = cont
         self.loops = {}      # header -> list of state signatures seen on this path
         self.call_site = call_site
+        self.self_ty = None
 
     def clone(self):
         f = Frame(self.fid, self.body, self.dest, self.target, self.cont, self.call_site)
         f.block = self.block
         f.stmt = self.stmt
         f.loops = {k: list(v) for k, v in self.loops.items()}
+        f.self_ty = self.self_ty
         return f
 
 
@@ -170,6 +172,7 @@ class Engine:
         self.interest = set()    # callee names whose calls are logged
         self.step_limit = 30_000_000
         self.use_cache = True
+        self.visited = {}
         self.dropped = 0
         self.discr_hint = {}
         self.debug_cache = False
@@ -535,6 +538,9 @@ class Engine:
                     return cbool(x or y)
             except (ZeroDivisionError, OverflowError, TypeError):
                 pass
+        if op == 'Lt' and isinstance(a, tuple) and a and a[0] == 'bounded' and is_const(b) and a[2] is not None \
+                and isinstance(cval(b), int) and a[2] <= cval(b):
+            return TRUE
         if op in ('Eq', 'Ne') and a == b and a[0] in ('enum',):
             return cbool(op == 'Eq')
         if op in ('Eq', 'Ne') and a[0] == 'enum' and b[0] == 'enum' and not a[4] and not b[4]:
@@ -550,8 +556,30 @@ class Engine:
         if op == 'Not' and a[0] == 'un' and a[1] == 'Not':
             return a[2]
         if op == 'PtrMetadata':
+            n = self.seq_len(st, a)
+            if n is not None:
+                return C('usize', n)
             return ('app', 'len', (a,))
         return ('un', op, a)
+
+    def seq_len(self, st, v):
+        """length of the sequence a (possibly referenced) value denotes, if known"""
+        n = 0
+        while isinstance(v, tuple) and v and v[0] == 'ref' and n < 4:
+            try:
+                v = self.load(st, v[1], v[2])
+            except (KeyError, PathEnd, Unmodelled, Fork):
+                return None
+            n += 1
+        if isinstance(v, tuple) and v:
+            if v[0] in ('vec', 'array'):
+                return len(v[1])
+            if v[0] == 'constx':
+                import re
+                m = re.search(r';\s*(\d+)\]$', v[1])
+                if m:
+                    return int(m.group(1))
+        return None
 
     def cast(self, st, kind, a, to):
         if 'PointerCoercion' in kind or kind in ('PtrToPtr', 'Transmute', 'FnPtrToPtr'):
@@ -1012,6 +1040,7 @@ class Engine:
             self.drop_value(st, v)
             self.jump(fr, t['target'])
         elif k == 'assert':
+            self.visited[(fr.body.path, fr.block)] = self.visited.get((fr.body.path, fr.block), 0) + 1
             c = self.force(st, self.eval_operand(st, fr, t['cond']))
             if is_const(c):
                 if bool(cval(c)) != t['expected']:
@@ -1184,6 +1213,7 @@ class Engine:
         dest = self.eval_place(st, fr, t['dest'])
         target = t['target']
         site = (fr.body.path, fr.block, t.get('span'))
+        self.visited[(fr.body.path, fr.block)] = self.visited.get((fr.body.path, fr.block), 0) + 1
         if name in self.interest or callee_decl(t) in self.interest:
             self.event(st, 'call', callee=name, args=tuple(args), site=site)
         h = self.hooks.get('call')
@@ -1204,18 +1234,33 @@ class Engine:
             return None
         # 2. local bodies (inlined)
         body = self.facts.bodies.get(name)
+        self_ty = None
+        if body is None and fr.self_ty and 'indirect' not in t['callee']:
+            # trait method called on `Self` inside a default method: resolve through the impl of the caller's Self
+            ga = t['callee'].get('gargs') or []
+            if ga and ga[0] == 'Self':
+                tr = t['callee'].get('trait')
+                cand = self.impl_method(fr.self_ty, tr, name.split('::')[-1])
+                if cand:
+                    name = cand
+                    body = self.facts.bodies.get(name)
+        if body is not None and body.impl_of and 'trait_default' in body.impl_of:
+            ga = t['callee'].get('gargs') or []
+            if ga:
+                self_ty = fr.self_ty if ga[0] == 'Self' else ga[0]
         if body is not None and name not in self.opaque and not self.is_opaque(name):
             depth = len(st.frames)
             if self.use_cache:
                 snap = self.reachable_snapshot(st, args)
-                key = (name, tuple(args), tuple(sorted(((repr(k), v) for k, v in snap.items()), key=lambda x: x[0])))
+                key = (name, self_ty, tuple(args), tuple(sorted(((repr(k), v) for k, v in snap.items()), key=lambda x: x[0])))
                 hit = self.call_cache.get(key, MISSING)
                 if hit is MISSING:
                     st2 = st.clone()
                     st2.asm = {}
                     nlog = len(self.log)
                     ndrop = self.dropped
-                    self.push_call(st2, body, args, dest, target, None, site)
+                    nf2 = self.push_call(st2, body, args, dest, target, None, site)
+                    nf2.self_ty = self_ty
                     tr = self.run_until(st2, depth)
                     hit = None
                     if tr[0] == 'leaf' and not tr[1].asm and tr[1].pending is None and self.dropped == ndrop:
@@ -1239,7 +1284,8 @@ class Engine:
                     self.cache_hits += 1
                     self.finish_call(st, fr, dest, target, hit[0])
                     return None
-            self.push_call(st, body, args, dest, target, None, site)
+            nf = self.push_call(st, body, args, dest, target, None, site)
+            nf.self_ty = self_ty
             tree = self.run_until(st, depth)
             if tree[0] == 'leaf':
                 # state object may differ from `st` after merging: copy back
@@ -1259,6 +1305,14 @@ class Engine:
             self.event(st, 'panic', info=('diverging-call', name), span=t.get('span'))
             raise PathEnd('diverge', name)
         self.finish_call(st, fr, dest, target, r)
+        return None
+
+    def impl_method(self, self_ty, trait, method):
+        for p, b in self.facts.bodies.items():
+            io = b.impl_of
+            if io and io.get('self_ty') == self_ty and io.get('trait') and trait and \
+                    io['trait'].split('<')[0] == trait.split('<')[0] and p.split('::')[-1] == method:
+                return p
         return None
 
     def is_opaque(self, name):
@@ -1450,7 +1504,7 @@ def model_by_pattern(name, t):
         short = F64_METHODS[name]
 
         def m(eng, st, fr, t, args, dest, target, short=short):
-            return ('app', short, tuple(eng.force(st, a) for a in args))
+            return ('app', short, tuple(args))
         return m
     return None
 
